@@ -239,6 +239,9 @@ class History:
                 stc["n"] += 1
                 if stc["n"] == 1:
                     rival.append_records([{"a": rrow}])
+                    with w.inspect():
+                        self.observe_commit("contended-rival")
+                        self.apply_retention_model()
                 return real_commit(base, new)
 
             to.metadata_manager.commit = commit_with_rival
@@ -262,24 +265,13 @@ class History:
                 tshim.sleep = real_sleep
                 to.metadata_manager.commit = real_commit
             sp.require(sts["done"] and stc["n"] >= 2, "contended_commit: the scenario did not retry", {"sig": "hist:contended:no-retry"})
-            # two commits landed: the rival's, then the transaction's
-            f, (name, md) = self.md()
-            new = [s_ for s_ in md["snapshots"] if s_["snapshot_id"] not in self.all]
-            sp.require(len(new) == 2, f"contended_commit: expected two new snapshots, found {len(new)}", {"sig": "hist:contended:new-snapshots"})
-            for s_ in new:
-                try:
-                    pairs = reader.snapshot_files(f, s_)
-                    rows = tuple(sorted(reader.snapshot_rows(f, s_, "a")))
-                except reader.Unreadable as ex:
-                    sp.require(False, f"contended_commit: a file of the committed snapshot was collected: {ex} ({self.trail})",
-                               {"sig": "gc:live-transaction-files-collected"})
-                    return kind
-                snap = Snap(s_["snapshot_id"], rows, frozenset(p_ for p_, _ in pairs), frozenset(reader.snapshot_manifests(f, s_)),
-                            s_["manifest_list"].lstrip("/"), s_["timestamp_ms"], s_.get("sequence_number"), self.current)
-                self.all[snap.id] = snap
-                self.order.append(snap.id)
-                self.retained.append(snap.id)
-                self.current = snap.id
+            try:
+                snap = self.observe_commit("contended")
+            except reader.Unreadable as ex:
+                sp.require(False, f"contended_commit: a file of the committed snapshot was collected: {ex} ({self.trail})",
+                           {"sig": "gc:live-transaction-files-collected"})
+                return kind
+            sp.require(row in snap.rows and rrow in snap.rows, f"contended_commit: rows {snap.rows} lack the two committed rows", {"sig": "hist:contended:rows"})
             self.apply_retention_model()
         elif kind == "open_txn":
             to = e.table()
